@@ -89,7 +89,7 @@ def prepare(u, repo):
                     text = hdr[-1] + " {\n" + text + "\n}\n"
                     rsx._count(e.rewrites, "wrapped_in_own_impl_header")
             if ex.get("wrap"):
-                text = ex["wrap"] + "\n{\n" + text + "\n}\n"
+                text = ex["wrap"] + "\n{\n" + text + "\n}\n" + ex.get("wrap_close", "")
                 rsx._count(e.rewrites, "R7.region_wrapped_as_fn")
             parts.append(text)
             fns.append({"unit": name, "address": addr, "file": e.path.replace(repo.rstrip("/") + "/", ""), "line": e.line,
